@@ -1,6 +1,7 @@
 //! fpsim: deterministic simulation harness for fastPASTA (see /verif/DESIGN.md).
 mod b64;
 mod child;
+mod corpus;
 mod exec;
 mod framework;
 mod interpose;
